@@ -72,6 +72,7 @@ class VirtualReactor(Clock):
         return s
 
     def callLater(self, delay, f, *a, **kw):
+        assert delay >= 0, f"{delay} is not greater than or equal to 0 seconds"       # as ReactorBase.callLater
         dc = super().callLater(delay, f, *a, **kw)
         dc._born = self._iteration            # the iteration during which the call was scheduled (0 = outside any)
         return dc
